@@ -162,6 +162,8 @@ type c08Case struct {
 	Mut   string `json:"mutation,omitempty"`
 	// Entry "fxframe": one call of RawPacket.ReadFrom / RequestPacket.ReadFrom of the filexfer codec
 	Frame *c08Frame `json:"frame,omitempty"`
+	// Entry "client": one reply of one client operation with an inflated count/length word (a case of C20's child)
+	Client *c20Case `json:"client_case,omitempty"`
 }
 
 type countingReader struct {
@@ -173,7 +175,7 @@ func (c *countingReader) Read(p []byte) (int, error) { n, err := c.r.Read(p); c.
 
 func checkC08(c *lib.Ctx) {
 	r := c.R
-	r.Rule = "every decoding entry point of both codecs (request decoder, attribute block, name list / response decoders of the filexfer codec, packet framing) on: every truncation of valid encodings of every packet kind, every 4-byte window replaced by 0, 1, n-1, n+1, 2^31-1, 2^32-1, every type byte 0..255, PRNG bytes; each decode runs in a child process (GC off, 3 GiB address-space limit, 20 s deadline): outcome class ok/err/panic compared with the Lean interpreter of the regenerated tables, bytes allocated <= 64*len + 64 KiB; framing: long and zero frames refused after exactly 4 bytes, short frames reported; filexfer framing (RawPacket.ReadFrom, RequestPacket.ReadFrom): limit in {16, 1024, default, 256 KiB, 1 MiB, PRNG} x receive buffer capacity in {nil, 3, 4, 5, 64, limit-1, limit, limit+1, 2x, 4x limit} with len 0 and len = cap x declared length in {0, 1, 4, 5, 6, 9, 10, limit and capacity -1/+0/+1, 2x, 4x limit (+1), 2^31-1, 2^31, 2^32-1} x stream {complete + next frame, complete, one byte short, header only}: over-limit and zero frames refused with exactly 4 bytes consumed, admissible frames delivered whole and without touching the next frame, allocation <= 64*consumed + limit + 64 KiB; non-trivial = mutated (not the valid original) input"
+	r.Rule = "every decoding entry point of both codecs (request decoder, attribute block, name list / response decoders of the filexfer codec, packet framing) on: every truncation of valid encodings of every packet kind, every 4-byte window replaced by 0, 1, n-1, n+1, 2^31-1, 2^32-1, every type byte 0..255, PRNG bytes; each decode runs in a child process (GC off, 3 GiB address-space limit, 20 s deadline): outcome class ok/err/panic compared with the Lean interpreter of the regenerated tables, bytes allocated <= 64*len + 64 KiB; framing: long and zero frames refused after exactly 4 bytes, short frames reported; filexfer framing (RawPacket.ReadFrom, RequestPacket.ReadFrom): limit in {16, 1024, default, 256 KiB, 1 MiB, PRNG} x receive buffer capacity in {nil, 3, 4, 5, 64, limit-1, limit, limit+1, 2x, 4x limit} with len 0 and len = cap x declared length in {0, 1, 4, 5, 6, 9, 10, limit and capacity -1/+0/+1, 2x, 4x limit (+1), 2^31-1, 2^31, 2^32-1} x stream {complete + next frame, complete, one byte short, header only}: over-limit and zero frames refused with exactly 4 bytes consumed, admissible frames delivered whole and without touching the next frame, allocation <= 64*consumed + limit + 64 KiB; client reply decoding (through C20's child: a fresh Client against a scripted peer per case): the operations whose replies carry counts or lengths (Stat, Lstat, File.Stat, ReadDir, ReadLink, RealPath, Getwd, Open, Create, StatVFS, File.Read / ReadAt / WriteTo) x every reply of the operation x the valid reply or a STATUS / HANDLE / DATA / NAME / ATTRS reply in its place x every count or length word set to 2^16, 2^24, 2^31-1, 2^32-1: the call allocates <= 64*reply bytes + 1 MiB and the process survives; non-trivial = mutated (not the valid original) input"
 	sftp.VerifFxRegisterExtensions()
 	var cases []c08Case
 	if c.Replay != "" {
@@ -298,6 +300,9 @@ func checkC08(c *lib.Ctx) {
 		}
 	}()
 	for _, cs := range cases {
+		if cs.Entry == "client" {
+			continue // run below, through C20's child
+		}
 		if cs.Entry == "fxframe" {
 			if cs.Frame == nil {
 				r.Fail(lib.Failure{Kind: "tie", Key: "replay", What: "fxframe case without frame parameters"})
@@ -456,6 +461,12 @@ func checkC08(c *lib.Ctx) {
 				r.Fail(lib.Failure{Kind: "correspondence", Key: "c08/recv", What: "framing: model and implementation differ", Input: flines[i], Expected: fm[i], Actual: fimpl[i]})
 			}
 		}
+	}
+	// ---- client side: replies with inflated counts / lengths ----
+	if c.Replay == "" {
+		c08ClientAlloc(c, nil)
+	} else if cases[0].Entry == "client" && cases[0].Client != nil {
+		c08ClientAlloc(c, cases[0].Client)
 	}
 	r.Sample(map[string]any{"entry": "fxattrs", "body": "800000000fffffff", "note": "extended flag and a count of 268 million with no data behind it"})
 	r.Sample(cases[len(cases)/2])
